@@ -1,12 +1,247 @@
 import IpaVerif.Model.Util
-/-! Line-protocol handlers for property C15 (model side). Import-free. -/
+import IpaVerif.Model.SeqJoin
+/-! Line-protocol handlers for property C15 (model side). Import-free.
+
+  c15.join <w> <n> <op>…     seq_join over a source with a budget; ops: `s<k>` source may yield k more
+                             items, `r<i>` future i becomes ready, `p` one poll_next
+  c15.dep <w> <n> <d> <polls> every task k is ready once tasks k+1..k+d have been polled; source always ready
+  c15.try <w> <n> <errs> <op>…  seq_try_join_all; ops `r<i>`, `p` (one poll of the TryCollect future)
+  c15.par <n> <errs> <op>…      parallel_join (futures::try_join_all); ops `r<i>`, `p`
+-/
 namespace IpaVerif.Driver.C15
-open IpaVerif.Util
+open IpaVerif.Util IpaVerif.SeqJoin
 
-/-- `some response` if the request belongs to this property, else `none`. -/
-def handle (_toks : List String) : Option String := none
+def plus (l : List Nat) : String := if l.isEmpty then "-" else String.intercalate "+" (l.map toString)
 
-/-- Property oracle on (request, implementation response): `some "holds"`, `some "fails <why>"`, or `none`. -/
-def oracle (_toks : List String) (_impl : String) : Option String := none
+def splitOp (t : String) : Option (Char × String) :=
+  match t.toList with
+  | c :: rest => some (c, String.ofList rest)
+  | [] => none
+
+def obsStr (o : Obs) (len : Nat) : String :=
+  match o.out with
+  | .item i => s!"I{i}/{plus o.polled}/{o.pulled}@{len}"
+  | .pending => s!"P/{plus o.polled}/{o.pulled}@{len}"
+  | .finished => s!"N/{plus o.polled}/{o.pulled}@{len}"
+
+def joinOps : State → Nat → List Nat → List String → List String → Option (List String)
+  | _, _, _, [], acc => some acc.reverse
+  | s, budget, rdy, t :: ts, acc => do
+    let (c, arg) ← splitOp t
+    match c with
+    | 's' => joinOps s (budget + (← arg.toNat?)) rdy ts ("s" :: acc)
+    | 'r' => joinOps s budget ((← arg.toNat?) :: rdy) ts ("r" :: acc)
+    | 'p' =>
+      let (s', o) := step s { budget := budget, ready := fun _ i => rdy.contains i }
+      joinOps s' (budget - o.pulled) rdy ts (obsStr o s'.active.length :: acc)
+    | _ => none
+
+def depReady (n d : Nat) (started : List Nat) (k : Nat) : Bool :=
+  (List.range d).all fun j => k + 1 + j ≥ n || started.contains (k + 1 + j)
+
+def depRun (n d : Nat) : Nat → State → List String → List String
+  | 0, _, acc => acc.reverse
+  | polls + 1, s, acc =>
+    let (s', o) := step s { budget := s.cap + 1, ready := depReady n d }
+    depRun n d polls s' (obsStr o s'.active.length :: acc)
+
+def tryStr : TryOut → String
+  | .pending => "P"
+  | .ok ids => s!"OK:{plus ids}"
+  | .err i => s!"ERR:{i}"
+
+def tryOps (errs : List Nat) : Option (State × List Nat) → List Nat → List String → List String → Option (List String)
+  | _, _, [], acc => some acc.reverse
+  | st, rdy, t :: ts, acc => do
+    let (c, arg) ← splitOp t
+    match c with
+    | 'r' => tryOps errs st ((← arg.toNat?) :: rdy) ts ("r" :: acc)
+    | 'p' =>
+      match st with
+      | none => tryOps errs none rdy ts ("gone" :: acc)
+      | some (s, collected) =>
+        let (s', collected', o, polled) :=
+          tryPoll (errs.contains ·) (fun _ i => rdy.contains i) (s.src.length + s.active.length + 2) s collected []
+        let st' := if o == .pending then some (s', collected') else none
+        tryOps errs st' rdy ts (s!"{tryStr o}/{plus polled}" :: acc)
+    | _ => none
+
+def parOps (errs : List Nat) : Option (List (Nat × Bool)) → List Nat → List String → List String → Option (List String)
+  | _, _, [], acc => some acc.reverse
+  | st, rdy, t :: ts, acc => do
+    let (c, arg) ← splitOp t
+    match c with
+    | 'r' => parOps errs st ((← arg.toNat?) :: rdy) ts ("r" :: acc)
+    | 'p' =>
+      match st with
+      | none => parOps errs none rdy ts ("gone" :: acc)
+      | some tasks =>
+        let (tasks', o, polled) := parPoll (errs.contains ·) (rdy.contains ·) tasks
+        let st' := if o == .pending then some tasks' else none
+        parOps errs st' rdy ts (s!"{tryStr o}/{plus polled}" :: acc)
+    | _ => none
+
+def join (l : List String) : String := String.intercalate " " l
+
+def handle (toks : List String) : Option String :=
+  match toks with
+  | "c15.join" :: w :: n :: ops => some <| Id.run do
+      let some w := w.toNat? | return "bad-request"
+      let some n := n.toNat? | return "bad-request"
+      match joinOps (State.new n w) 0 [] ops [] with
+      | some r => return join (s!"cap={w}" :: r)
+      | none => return "bad-request"
+  | ["c15.dep", w, n, d, polls] => some <| Id.run do
+      let some w := w.toNat? | return "bad-request"
+      let some n := n.toNat? | return "bad-request"
+      let some d := d.toNat? | return "bad-request"
+      let some polls := polls.toNat? | return "bad-request"
+      return join (depRun n d polls (State.new n w) [])
+  | "c15.try" :: w :: n :: errs :: ops => some <| Id.run do
+      let some w := w.toNat? | return "bad-request"
+      let some n := n.toNat? | return "bad-request"
+      let some errs := parseNatList errs | return "bad-request"
+      match tryOps errs (some (State.new n w, [])) [] ops [] with
+      | some r => return join r
+      | none => return "bad-request"
+  | "c15.par" :: n :: errs :: ops => some <| Id.run do
+      let some n := n.toNat? | return "bad-request"
+      let some errs := parseNatList errs | return "bad-request"
+      match parOps errs (some ((List.range n).map (·, false))) [] ops [] with
+      | some r => return join r
+      | none => return "bad-request"
+  | t :: _ => if t.startsWith "c15." then some "bad-request" else none
+  | [] => none
+
+/-! ## Spec-side oracle (statement of C15, independent of the model of `poll_next`) -/
+
+def parsePlus (s : String) : Option (List Nat) :=
+  if s = "-" then some [] else (s.splitOn "+").mapM String.toNat?
+
+structure JSt where
+  emitted : Nat := 0          -- number of items emitted so far; must be 0,1,2,… in order
+  pulled : Nat := 0
+  budget : Nat := 0
+  rdy : List Nat := []
+  resolved : List Nat := []   -- tasks whose future has returned Ready
+  finished : Bool := false
+  bad : Option String := none
+
+def jflag (o : JSt) (why : String) : JSt := if o.bad.isSome then o else { o with bad := some why }
+
+def joinOracleStep (w n : Nat) (o : JSt) (t resp : String) : JSt :=
+  match splitOp t with
+  | some ('s', arg) => { o with budget := o.budget + arg.toNat?.getD 0 }
+  | some ('r', arg) => { o with rdy := arg.toNat?.getD 0 :: o.rdy }
+  | some ('p', _) =>
+    match (resp.splitOn "@").getD 0 "" |>.splitOn "/" with
+    | [out, polled, pulled] =>
+      let polled := (parsePlus polled).getD []
+      let pulledNow := pulled.toNat?.getD 0
+      let o := { o with pulled := o.pulled + pulledNow, budget := o.budget - pulledNow,
+                        resolved := o.resolved ++ polled.filter (o.rdy.contains ·) }
+      let inflight := o.pulled - o.emitted
+      let o := if polled.any (fun i => i < o.emitted ∨ i ≥ o.pulled) then jflag o "a future outside the window was polled" else o
+      if out.startsWith "I" then
+        let id := ((out.drop 1).toString.toNat?).getD 0
+        let o := if id ≠ o.emitted then jflag o s!"item {id} emitted, expected {o.emitted} (order / exactly once)" else o
+        let o := if !o.resolved.contains id then jflag o s!"item {id} emitted before its future completed" else o
+        { o with emitted := o.emitted + 1 }
+      else if out == "N" then
+        let o := if o.emitted ≠ n then jflag o s!"stream ended after {o.emitted} of {n} items" else o
+        { o with finished := true }
+      else if out == "P" then
+        -- window: while the source still has items and is willing to yield, at least w tasks are in flight
+        let o := if o.pulled < n ∧ o.budget > 0 ∧ inflight < w then
+            jflag o s!"only {inflight} tasks in flight while the source has items (window {w})" else o
+        -- all in-flight unresolved futures were polled
+        let want := (List.range inflight).map (· + o.emitted) |>.filter (fun i => !(o.resolved.contains i) ∨ polled.contains i)
+        let o := if want.any (fun i => !polled.contains i) then jflag o "an in-flight pending future was not polled on Pending" else o
+        -- head of line: Pending although the first unemitted task has completed
+        if o.resolved.contains o.emitted ∧ inflight > 0 then jflag o "Pending although the next item is ready" else o
+      else jflag o "unparsable response"
+    | _ => jflag o "unparsable response"
+  | _ => o
+
+def oracle (toks : List String) (impl : String) : Option String :=
+  match toks with
+  | "c15.join" :: w :: n :: ops => some <| Id.run do
+      let some w := w.toNat? | return "unknown"
+      let some n := n.toNat? | return "unknown"
+      let resps := (impl.splitOn " ").drop 1
+      if resps.length ≠ ops.length then return "unknown"
+      let o := (ops.zip resps).foldl (fun o (t, r) => joinOracleStep w n o t r) {}
+      match o.bad with
+      | some why => return "fails " ++ why
+      | none => return "holds"
+  | ["c15.dep", w, n, d, polls] => some <| Id.run do
+      let some w := w.toNat? | return "unknown"
+      let some n := n.toNat? | return "unknown"
+      let some d := d.toNat? | return "unknown"
+      let some polls := polls.toNat? | return "unknown"
+      let outs := (impl.splitOn " ").map fun r => (r.splitOn "/").getD 0 ""
+      let items := outs.filter (·.startsWith "I")
+      let want := (List.range n).map fun i => s!"I{i}"
+      if items ≠ want.take items.length then return "fails items out of order"
+      -- dependencies within the window: the join must complete within 2n+1 polls
+      if d + 1 ≤ w ∧ polls ≥ 2 * n + 1 then
+        if items.length ≠ n ∨ !outs.contains "N" then return s!"fails no completion within {polls} polls although dependencies reach only {d} < window {w}"
+      return "holds"
+  | "c15.try" :: _ :: n :: errs :: ops => some <| Id.run do
+      let some n := n.toNat? | return "unknown"
+      let some errs := parseNatList errs | return "unknown"
+      let resps := impl.splitOn " "
+      if resps.length ≠ ops.length then return "unknown"
+      let mut rdy : List Nat := []
+      let mut doneAt : Option String := none
+      for (t, r) in ops.zip resps do
+        match splitOp t with
+        | some ('r', a) => rdy := a.toNat?.getD 0 :: rdy
+        | some ('p', _) =>
+          if doneAt.isSome then
+            if r ≠ "gone" then return "unknown"
+          else
+            let out := (r.splitOn "/").getD 0 ""
+            let firstErr := (List.range n).find? (errs.contains ·)
+            -- tasks that must have completed for the join to complete
+            let need := match firstErr with | some e => List.range (e + 1) | none => List.range n
+            let canFinish := need.all (rdy.contains ·)
+            if out == "P" then
+              if canFinish then return "fails join pending although every task up to the first error is ready"
+            else
+              doneAt := some out
+              if !canFinish then return s!"fails join completed ({out}) before the needed tasks were ready"
+              match firstErr with
+              | some e => if out ≠ s!"ERR:{e}" then return s!"fails expected the first error {e}, got {out}"
+              | none => if out ≠ s!"OK:{plus (List.range n)}" then return s!"fails expected all results in input order, got {out}"
+        | _ => pure ()
+      return "holds"
+  | "c15.par" :: n :: errs :: ops => some <| Id.run do
+      let some n := n.toNat? | return "unknown"
+      let some errs := parseNatList errs | return "unknown"
+      let resps := impl.splitOn " "
+      if resps.length ≠ ops.length then return "unknown"
+      let mut rdy : List Nat := []
+      let mut done := false
+      for (t, r) in ops.zip resps do
+        match splitOp t with
+        | some ('r', a) => rdy := a.toNat?.getD 0 :: rdy
+        | some ('p', _) =>
+          if !done then
+            let out := (r.splitOn "/").getD 0 ""
+            let readyErrs := (List.range n).filter fun i => errs.contains i ∧ rdy.contains i
+            if out == "P" then
+              if !readyErrs.isEmpty then return "fails pending although a task has failed"
+              if (List.range n).all (rdy.contains ·) then return "fails pending although every task is ready"
+            else
+              done := true
+              if out.startsWith "ERR:" then
+                let e := ((out.drop 4).toString.toNat?).getD n
+                if !readyErrs.contains e then return s!"fails reported error {e} which has not happened"
+              else if out ≠ s!"OK:{plus (List.range n)}" then return "fails results not in input order"
+              else if !readyErrs.isEmpty ∨ !(List.range n).all (rdy.contains ·) then return "fails Ok although a task failed or is not ready"
+        | _ => pure ()
+      return "holds"
+  | _ => none
 
 end IpaVerif.Driver.C15
